@@ -124,6 +124,12 @@ def rule_c(repo, chk):
                 ok = '_computeDigestResponse(' in src(other)
         chk.ob('c', d.ref, 'Digest acceptance is equality of the presented response with the one recomputed from the stored password', ok, loc(d, r.ast),
                detail=f'`{r.text[:80]}`', discr='digest-response')
+    # the recomputation is bound to the request method (a response made for GET must not verify for POST)
+    comp = [c for c in calls_in(d.node) if call_name(c) == '_computeDigestResponse']
+    mp = d.params[2]
+    okm = bool(comp) and all((len(c.args) > 2 and src(c.args[2]) == mp) or any(k.arg == 'method' and src(k.value) == mp for k in c.keywords) for c in comp)
+    chk.ob('c', d.ref, 'the Digest response is recomputed for the method of the request being authenticated', okm, loc(d, (comp or [d.node])[0]),
+           detail='; '.join(src(c) for c in comp), discr='digest-method')
     b = repo.func(WEB_HTTPAUTH, '_checkBasicResponse')
     chk.touch(b)
     am, pw = b.params[0], b.params[1]
@@ -150,6 +156,10 @@ def rule_c(repo, chk):
     ok = bool(rets) and all(isinstance(r.value, ast.Call) and [src(a) for a in r.value.args[:2]] == cr.params[:2] for r in rets) and \
         any(isinstance(n, ast.Assign) and src(n.value) == f"AUTH_RESPONSES[{cr.params[0]}['auth_scheme']]" for n in walk_no_defs(cr.node))
     chk.ob('c', cr.ref, 'checkResponse() returns the verdict of the checker selected by the presented scheme', ok, loc(cr, cr.node), discr='dispatch')
+    okk = bool(rets) and all(isinstance(r.value, ast.Call) and {k.arg: src(k.value) for k in r.value.keywords if k.arg}.get('method') == 'method' and
+                             {k.arg: src(k.value) for k in r.value.keywords if k.arg}.get('encrypt') == 'encrypt' and any(k.arg is None for k in r.value.keywords)
+                             for r in rets)
+    chk.ob('c', cr.ref, 'checkResponse() hands method, encrypt and the remaining options (realm) on to the checker', okk, loc(cr, cr.node), discr='dispatch-args')
 
 
 def rule_d(repo, chk):
